@@ -209,7 +209,11 @@ class BasePath(safe_str.safe_string):
         else:
             root = variables[self.root]
 
-        if executable and root is None and posixpath.sep not in self.suffix:
+        # In a command line, a bare file name would be looked up in $PATH if
+        # it's the command, and a leading `-` would be read as an option.
+        if executable and root is None and (
+            posixpath.sep not in self.suffix or self.suffix.startswith('-')
+        ):
             root = posixpath.curdir
 
         # Not all platforms (e.g. Windows) support $(DESTDIR), so only emit the
